@@ -78,3 +78,8 @@ check("C12",
       "Exploration: for every generated cluster layout (nodes/DCs/racks/vnodes/shard counts/shard-aware port, keyspace strategy, key shape with permuted bind markers, CDC partitioner, DC preference, tablets announced via response payloads) a real Session fetches the schema, fills its pools and executes prepared statements; the first frame of each request must arrive at a reference replica of the key's token (preferred DC first) on a connection of the owning shard when one exists, and the result must name that coordinator.",
       "Trusted: reference Murmur3/CDC token, replica walkers, shard_of, mock cluster. Requests are issued after every (node, shard) has a pool connection; tablet assertions only after the announced tablet is visible through get_token_endpoints().",
       "DESIGN.md 2/C12")
+check("C14",
+      "end-to-end model-based property testing: generated histories of server-side events (eviction, schema change, id change) and client operations against a protocol-faithful mock; invariants over the frame log and the decoded results",
+      "Exploration: each generated history runs through a real Session against mock nodes that evict, change result metadata (and metadata ids) and change statement ids; after UNPREPARED the same connection must see PREPARE and the identical EXECUTE/BATCH; an id change yields an error and no mis-bound EXECUTE; result column specs are those sent along or else the most recently announced; rows decoded under the matching metadata equal the encoded rows; with the extension every skip-metadata EXECUTE presents the latest announced id.",
+      "Trusted: vkit::mock implementing UNPREPARED / skip-metadata / metadata-id semantics from the protocol documents. Operations are sequential (concurrent callers not generated). Without metadata ids, 'most recently announced' is read weakly (any PREPARED response's metadata), because stale cached metadata is a documented hazard there.",
+      "DESIGN.md 2/C14")
